@@ -279,11 +279,6 @@ package websocket
 //@ pure
 //@ ensures result != nil
 
-//@ func (io.ReadCloser).Close
-//@ params rc
-//@ results err
-//@ trusted
-//@ pure
 
 //@ func (*messageReader).Read
 //@ tags C03 C05 C07
@@ -297,7 +292,7 @@ package websocket
 //@ ensures[range] 0 <= n && n <= len(b)
 //@ ensures[stale] imp(old(c.messageReader) != r, n == 0 && err == io.EOF && c.br.g_rd == old(c.br.g_rd))
 //@ ensures[C05.sticky] imp(old(c.readErr) != nil && old(c.messageReader) == r, n == 0 && err != nil && c.br.g_rd == old(c.br.g_rd))
-//@ ensures[C05.eof] imp(err == io.EOF && old(c.messageReader) == r, c.readRemaining == 0 && c.readFinal)
+//@ ensures[C03+C05.eof] imp(err == io.EOF && old(c.messageReader) == r, c.readRemaining == 0 && c.readFinal)
 //@ ensures[C03+C05.bytes] forall(i, 0, n, b[i] == ite(c.isServer, s[c.br.g_rd - n + i] ^ c.readMaskKey[(c.g_rpos + i)&3], s[c.br.g_rd - n + i]))
 //@ ensures[C03+C05.cursor] imp(n > 0, n <= c.g_rrem && c.readRemaining == c.g_rrem - n && imp(c.isServer, c.readMaskPos == (c.g_rpos + n)&3))
 //@ ensures[C03.contig] imp(old(c.readRemaining) > 0 && old(c.readErr) == nil && old(c.messageReader) == r, \
@@ -517,7 +512,7 @@ package websocket
 //   compression writer, whose g_inner ghost names it).
 //@ ghostfield io.WriteCloser.g_inner ref
 //@ pred curW(c) := ite(c.writer == nil, asPtr(nilref(), "*messageWriter"), ite(typeIs(c.writer, "*messageWriter"), asType(c.writer, "*messageWriter"), asPtr(c.writer.g_inner, "*messageWriter")))
-//@ pred WConn(c) := c.conn != nil && !held(c.mu) && c.writeBufSize >= 139 && c.g_acc >= 0 && c.g_out >= 0 && \
+//@ pred WConn(c) := c.conn != nil && !held(c.mu) && c.writeBufSize >= 139 && 0 - 2 <= c.compressionLevel && c.compressionLevel <= 9 && c.g_acc >= 0 && c.g_out >= 0 && \
 //@     ((region(c.writeBuf) == 0 && len(c.writeBuf) == 0 && c.writePool != nil) || (region(c.writeBuf) > 0 && len(c.writeBuf) >= 139 && off(c.writeBuf) == 0 && live(c.writeBuf))) && \
 //@     imp(c.g_wst && c.writer == nil, c.writeErr != nil)
 //@ pred WOpen(c) := imp(c.writer != nil, curW(c) != nil && ref(curW(c)) < alloc() && curW(c).c == c && curW(c).err == nil && WBuf(curW(c)))
@@ -645,6 +640,7 @@ package websocket
 //@ results result
 //@ trusted
 //@ pure
+//@ requires[C15.level] 0 - 2 <= level && level <= 9
 //@ ensures result != nil && !typeIs(result, "*messageWriter") && result.g_inner == ref(asType(w, "*messageWriter"))
 
 //@ modset PrevMods(c) := curW(c).err, curW(c).pos, curW(c).frameType, curW(c).compress, c.isWriting, c.writer, c.writeBuf, region(c.writeBuf), c.g_out, c.g_acc, c.g_wst, WireMods(c)
@@ -765,8 +761,29 @@ package websocket
 //@ tags C07 C12
 //@ assert at return#1[C12.offered]: u.Subprotocols != nil && streq(clientProtocol, serverProtocol)
 
+//@ func field:httpProxyDialer.forwardDial
+//@ params hpd ctx network addr
+//@ results conn err
+//@ trusted
+//@ modifies
+//@ ensures imp(err == nil, conn != nil && !conn.g_closed && !typeIs(conn, "*brNetConn"))
+
 //@ func (*httpProxyDialer).DialContext
-//@ tags C07 C18
+//@ tags C07 C16 C18
+//@ results conn err
+//@ requires hpd.proxyURL != nil
+//@ bind fc,ferr after call:forwardDial#1
+//@ bind hp,hnp after call:hostPortNoPort#1
+//@ bind pw,pwset after call:Password#1
+//@ assert at call:forwardDial#1[C18.firsthop]: arg2 == network && arg3 == hp
+//@ assert at call:Set#1[C18.auth]: pwset && streq(arg1, "Proxy-Authorization")
+//@ assert at call:Write#1[C18.connect]: arg1 == fc && streq(connectReq.Method, "CONNECT") && connectReq.Host == addr && connectReq.URL.Opaque == addr && connectReq.Header == connectHeader
+//@ assert at call:Write#1[C18.noauth]: imp(hpd.proxyURL.User == nil || !pwset, !haskey(connectHeader, "Proxy-Authorization"))
+//@ assert at return#1[C16.dialerr]: conn == nil && err != nil
+//@ assert at return#2[C16.cleanup]: conn == nil && err != nil && fc.g_closed
+//@ assert at return#3[C16.cleanup]: conn == nil && err != nil && fc.g_closed
+//@ assert at return#4[C18.refused]: conn == nil && err != nil && fc.g_closed && resp.StatusCode != 200
+//@ assert at return#5[C18.ok]: conn == fc && err == nil && !fc.g_closed && resp.StatusCode == 200
 
 // ---------------------------------------------------------------------------
 // json.go
@@ -984,3 +1001,26 @@ package websocket
 //@ loop 2 invariant len(req.Header["Sec-WebSocket-Key"]) == 1 && req.Header["Sec-WebSocket-Key"][0] == ck
 //@ loop 2 invariant len(req.Header["Upgrade"]) == 1 && streq(req.Header["Upgrade"][0], "websocket") && len(req.Header["Connection"]) == 1 && streq(req.Header["Connection"][0], "Upgrade")
 //@ loop 2 invariant len(req.Header["Sec-WebSocket-Version"]) == 1 && streq(req.Header["Sec-WebSocket-Version"][0], "13") && streq(req.Method, "GET") && req.URL == u && req.Header != nil
+
+// ---------------------------------------------------------------------------
+// compression.go / conn.go: compression settings
+
+//@ func isValidCompressionLevel
+//@ tags C15
+//@ pure
+//@ ensures iff(result, 0 - 2 <= level && level <= 9)
+
+//@ func (*Conn).SetCompressionLevel
+//@ tags C15
+//@ modifies c.compressionLevel
+//@ ensures[C15.level] 0 - 2 <= c.compressionLevel && c.compressionLevel <= 9 || c.compressionLevel == old(c.compressionLevel)
+//@ ensures imp(result == nil, c.compressionLevel == level && 0 - 2 <= level && level <= 9) && imp(result != nil, c.compressionLevel == old(c.compressionLevel))
+
+//@ func (*Conn).EnableWriteCompression
+//@ tags C15
+//@ modifies c.enableWriteCompression
+//@ ensures c.enableWriteCompression == enable
+
+//@ func compressNoContextTakeover
+//@ tags C15 C07
+//@ requires 0 - 2 <= level && level <= 9
